@@ -260,6 +260,32 @@ C07_Hull(steps) ==
      /\ steps[k].mn >= steps[k].lo - 2
      /\ steps[k].mx <= steps[k].hi + 2
 
+-----------------------------------------------------------------------------
+(* C08 - redundant axes, axis relabelling, mirroring.  tr describes the symmetry map from the
+   small grid gs to the big grid gb; Pre(tr, gs, cb) is the small cell a big cell comes from. *)
+DropIdx(c, p) == [a \in 1..(Len(c) - 1) |-> IF a < p THEN c[a] ELSE c[a + 1]]
+Pre(tr, gs, cb) ==
+  CASE tr.kind = "extrude" -> DropIdx(cb, tr.pos)
+    [] tr.kind = "permute" -> [j \in 1..Len(cb) |-> cb[CHOOSE a \in 1..Len(cb) : tr.perm[a] = j]]
+    [] tr.kind = "mirror"  -> [cb EXCEPT ![tr.axis] = NCells(gs, tr.axis) + 1 - cb[tr.axis]]
+EmbedField(tr, gs, gb, xs) == [cb \in AllCells(gb) |-> xs[Pre(tr, gs, cb)]]
+\* the geometry of the big grid is the image of the small one
+C08_Geometry(tr, gs, gb) ==
+  CASE tr.kind = "extrude" ->
+         \A a \in 1..Dim(gb.cls) : a # tr.pos => gb.faces[a] = gs.faces[IF a < tr.pos THEN a ELSE a - 1]
+    [] tr.kind = "permute" -> \A a \in 1..Dim(gb.cls) : gb.faces[a] = gs.faces[tr.perm[a]]
+    [] tr.kind = "mirror"  ->
+         \A a \in 1..Dim(gb.cls) :
+            IF a # tr.axis THEN gb.faces[a] = gs.faces[a]
+            ELSE \A i \in 1..Len(gs.faces[a]) :
+                    gb.faces[a][i] = RSub(RAdd(Lo(gs, a), Hi(gs, a)), gs.faces[a][Len(gs.faces[a]) + 1 - i])
+\* operators commute with the map:  M_big (E x) = E (M_small x)  on every interior cell
+C08_Apply(tr, gs, gb, Ms, Mb, xs) ==
+  LET Xb == EmbedField(tr, gs, gb, xs)
+  IN  \A Pb \in Interior(gb) : MApplyRow(Mb, Xb, Pb) = MApplyRow(Ms, xs, Pre(tr, gs, Pb))
+\* a field computed on the big grid is the image of the one computed on the small grid
+C08_Field(tr, gs, gb, fs, fb) == \A cb \in Live(gb) : fb[cb] = fs[Pre(tr, gs, cb)]
+
 \* the reference mesh record (what the documentation promises)
 RefMesh(g) ==
   [dims        |-> Dims(g),
